@@ -332,7 +332,8 @@ type evRow struct {
 	WM       int64 // watermark (ns) right after this row was ingested; MinInt64 while none
 	Late     bool  // Accepted && TS < WM
 	EmitT    time.Duration
-	IdleRisk bool // an idle-timeout advance may have happened before this row
+	IngestT  time.Duration
+	IdleRisk bool // an idle-timeout advance may have happened before this row was ingested
 }
 
 type evLedger struct {
@@ -342,13 +343,26 @@ type evLedger struct {
 	WMFinal int64
 	MinTS   int64 // min usable ts over accepted rows
 	MinOnT  int64 // min ts over on-time rows
+	IngestKnown bool
 }
 
 func buildLedger(e *Env, sp *evSpec) *evLedger {
 	l := &evLedger{ByID: map[string]*evRow{}, RawByID: map[string]map[string]any{}, WMFinal: math.MinInt64, MinTS: math.MaxInt64, MinOnT: math.MaxInt64}
 	maxTS := int64(math.MinInt64)
-	var lastRet time.Duration
+	nUsable := 0
+	for _, rec := range e.Ops {
+		if rec.Op.K == "emit" {
+			if _, ok := rec.Op.Row["ts"].(int); ok {
+				nUsable++
+			}
+		}
+	}
+	// ingestion instants are known when every row with a usable timestamp was seen entering
+	// Watermark.UpdateEventTime exactly once
+	l.IngestKnown = len(e.IngestT) == nUsable
+	usableIdx := 0
 	idleRisk := false
+	var lastIngest time.Duration = -1
 	for _, rec := range e.Ops {
 		if rec.Op.K != "emit" {
 			continue
@@ -356,11 +370,26 @@ func buildLedger(e *Env, sp *evSpec) *evLedger {
 		row := rec.Op.Row
 		r := &evRow{Idx: len(l.Rows), ID: row["id"].(string), Row: row, Keys: rowKeys(row, sp.KeyCols), EmitT: rec.TInv}
 		r.KeyS = keyString(r.Keys)
-		if sp.Idle > 0 && len(l.Rows) > 0 && rec.TInv-lastRet >= time.Duration(sp.Idle)/2 {
-			idleRisk = true
+		if sp.Idle > 0 {
+			if !l.IngestKnown {
+				idleRisk = true // cannot bound the idle advance: judge nothing that depends on it
+			} else {
+				if _, usable := row["ts"].(int); usable {
+					r.IngestT = e.IngestT[usableIdx]
+					usableIdx++
+					if lastIngest >= 0 && r.IngestT-lastIngest >= time.Duration(sp.Idle) {
+						idleRisk = true
+					}
+					// a stall of IDLETIMEOUT inside the arrival itself (between recording the event and
+					// testing its lateness) lets the idle advance overtake the row
+					if e.IngestEnd[usableIdx-1]-r.IngestT >= time.Duration(sp.Idle) {
+						idleRisk = true
+					}
+					lastIngest = r.IngestT
+				}
+			}
 		}
 		r.IdleRisk = idleRisk
-		lastRet = rec.TRet
 		if n, ok := row["ts"].(int); ok {
 			r.Usable = true
 			r.TS = int64(n) * sp.UnitNS
@@ -383,7 +412,7 @@ func buildLedger(e *Env, sp *evSpec) *evLedger {
 			r.WM = math.MinInt64
 		}
 		r.Late = r.Accepted && r.TS < r.WM
-		if r.Accepted && !r.Late && r.ID != "flush" && r.TS < l.MinOnT {
+		if r.Accepted && !r.Late && !r.IdleRisk && r.ID != "flush" && r.TS < l.MinOnT {
 			l.MinOnT = r.TS
 		}
 		l.Rows = append(l.Rows, r)
@@ -432,6 +461,7 @@ func (sp *evSpec) covering(ts int64) []interval {
 // evRun executes an event-time window case and returns the instance statistics, or false if the
 // run must not be judged.
 func evRun(e *Env) (map[string]int64, bool) {
+	e.WatchIngest()
 	if err := e.Setup(); err != nil {
 		e.R.Infra = "setup: " + err.Error()
 		return nil, false
@@ -590,7 +620,7 @@ func checkTimeWindows(e *Env, sp *evSpec, l *evLedger, prop string) {
 					old[id] = true
 				}
 				for _, id := range r.IDs {
-					if er := l.ByID[id]; er != nil && !old[id] && !er.Late {
+					if er := l.ByID[id]; er != nil && !old[id] && !er.Late && !er.IdleRisk {
 						e.Violate("C02/late-update-adds-on-time-row", sp.Kind, "re-delivery of window %s adds row %s which was not late on arrival", r.WindowID, id)
 					}
 				}
@@ -615,14 +645,22 @@ func checkTimeWindows(e *Env, sp *evSpec, l *evLedger, prop string) {
 			have := l.maxAcceptedBefore(r.D.Emits)
 			idleOK := false
 			if sp.Idle > 0 {
-				// the source may legitimately have been idle: any emitted row before this delivery
-				// with IdleRisk, or the delivery itself happened >= idle/2 after the last emit
-				for i := 0; i < r.D.Emits && i < len(l.Rows); i++ {
-					if l.Rows[i].IdleRisk {
+				// the source may legitimately have been idle: an ingestion gap >= IDLETIMEOUT before
+				// this delivery, or the delivery itself came >= IDLETIMEOUT after the last ingestion
+				if !l.IngestKnown {
+					idleOK = true
+				}
+				var last time.Duration = -1
+				for _, er := range l.Rows {
+					if !er.Usable || er.IngestT > r.D.T {
+						continue
+					}
+					if er.IdleRisk {
 						idleOK = true
 					}
+					last = er.IngestT
 				}
-				if r.D.Emits > 0 && r.D.Emits <= len(l.Rows) && r.D.T-l.Rows[r.D.Emits-1].EmitT >= time.Duration(sp.Idle)/2 {
+				if last >= 0 && r.D.T-last >= time.Duration(sp.Idle) {
 					idleOK = true
 				}
 			}
